@@ -607,6 +607,38 @@ def check(run):
                              "theories/Model/CrashFS.vo", "theories/Model/Writer.vo", "theories/Model/StreamOk.vo",
                              "theories/gen/TablesSaving.vo"])
     quick = run.tier == "quick"
+    # ------------------------------------------------------------------ (0) several file backends under one saving strategy
+    # each report file is refreshed at the promised points whatever the other backends do: with a clock that only depends on the
+    # number of events handled, the refresh points of a backend running together with others equal those it has when it runs alone
+    base = gen_run_cases(run, 8 if quick else 120)
+    mcases = []
+    for c in base:
+        for multi in (["json"], ["xml"], ["json", "xml"]):
+            m = {k: v for k, v in c.items() if k not in ("backend",)}
+            m["id"] = "%s_%s" % (c["id"], "+".join(multi))
+            m["multi"] = multi
+            m["seconds_per_event"] = run.rng.choice([0.4, 1, 3, 100]) if multi == ["json"] else mcases[-1]["seconds_per_event"]
+            mcases.append(m)
+    mres = run_impl_many("impl_saving.py", mcases)
+    for k in range(0, len(mcases), 3):
+        (cj, rj), (cx, rx), (cb, rb) = [(mcases[k + d], mres[k + d]) for d in range(3)]
+        run.evaluations += 3
+        run.count("multi_backend_runs")
+        if any((r.get("outcome") or ["?"])[0] != "returned" or "refresh" not in r for r in (rj, rx, rb)):
+            if any((r.get("outcome") or ["?"])[0] not in ("returned", "raised") for r in (rj, rx, rb)):
+                run.tie_broken("driver could not observe a run with several file backends", case={"id": cb["id"], "saving": cb["saving"]},
+                               detail=json.dumps([r.get("outcome") for r in (rj, rx, rb)])[:1500])
+            continue
+        for name, alone in (("json", rj), ("xml", rx)):
+            a, b = alone["refresh"][name], rb["refresh"][name]
+            if len(b) >= 2:
+                run.nontrivial.add(cb["id"] + ":" + name)
+            if a != b:
+                run.violation("multi:refresh-points-depend-on-other-backends",
+                              "with --save-report %s the %s report file is rewritten after events %s when it is the only file backend and "
+                              "after events %s when json and xml are both enabled (%.1f s per event)" % (
+                                  cb["saving"], name, a[:12], b[:12], cb["seconds_per_event"]),
+                              {"kind": "multi", "case": cb, "alone": a, "together": b, "backend": name})
     # ------------------------------------------------------------------ (1) runs
     cases = gen_run_cases(run, 60 if quick else 1000)
     results = run_impl_many("impl_saving.py", cases)
